@@ -437,7 +437,7 @@ FUNCTIONS = list(_s.FUNCTIONS) + [
         invariant LOOP_ENTRY(SB(&this->buffer).pos) <= SB(&this->buffer).pos && SB(&this->buffer).pos <= SB(&this->buffer).len
         invariant CHUNK_INV(&g_body->chunk) && BODYSTEP_INV(g_body) && g_rp->request.vs_base_Message.body_.size <= MAXLEN && g_app_total == 0 && g_app_calls == 0
         decreases 3 - this->currentStep"""], 'hoist_all': True},
-    {'q': 'Pistache::Http::Private::ParserImpl::reset', 'contract': """
+    {'q': 'Pistache::Http::Private::ParserImpl::reset', 'class_targ': 'Request', 'contract': """
         requires RP_PRE_ANY(this) && PTR_EQ(g_rp, this)
         assigns SB(&PB(this)->buffer).base, SB(&PB(this)->buffer).pos, SB(&PB(this)->buffer).len, PB(this)->buffer.bytes, PB(this)->currentStep,
                 g_body->bytesRead, g_body->chunk.size, g_body->chunk.bytesRead, this->request, this->time_, g_now
